@@ -16,13 +16,16 @@ from tools.gen.csrc import ExtractError
 from harness.C14 import oracle
 
 # theorems of Props/C14.lean; the ones in PROPS_GEN mention the regenerated configuration / tables (Gen/Int64.lean)
-PROPS_GEN = ["no_ub", "method_tables_ok", "dispatch_left_then_reversed_right"]
+PROPS_GEN = ["no_ub", "compare_mixed_correct", "compare_mixed_correct_unsigned", "method_tables_ok", "dispatch_left_then_reversed_right"]
 PROPS = ["wrap_ops_eq_bitvec", "wrap_ops_in_range", "shift_ops_eq_bitvec", "divf_eq_floor_div", "mod_eq_floor_mod", "trunc_div_rem_correct",
-         "mod_zero_is_dividend", "div_zero_errors", "no_ub_iff_guarded", "no_ub_partial", "ub_reachable_on_pinned"]
+         "mod_zero_is_dividend", "div_zero_errors", "no_ub_iff_guarded", "no_ub_partial", "ub_reachable_on_pinned",
+         "cmpIntDbl_is_exact", "rnd53_exact_small_monotone_edge", "compare_mixed_correct_of_inclusive", "compare_mixed_partial",
+         "compare_wrong_on_pinned", "compare_ints_correct", "unwrap_range"]
 # configuration-generic lemmas (audited separately when Props/C14 does not build, to show what still holds)
 LEMMAS = ["opMethod_add", "opMethod_sub", "opMethod_mul", "opMethod_and", "opMethod_or", "opMethod_xor", "notMethod_bitvec", "opMethod_shl", "opMethod_sar",
           "divf_eq_floor_div", "mod_eq_floor_mod", "trunc_div_rem_correct", "mod_zero_is_dividend", "div_zero_errors", "no_ub_iff_guarded", "no_ub_partial",
-          "ub_reachable_on_pinned"]
+          "ub_reachable_on_pinned", "compareInt64Double_correct", "compareInt64Double_partial", "compareUint64Double_partial", "compareMethod_ints",
+          "compare_ub_on_pinned", "decode_wf", "rnd53_small", "rnd53_big"]
 ENV = dict(os.environ, ASAN_OPTIONS="detect_leaks=0:abort_on_error=0", UBSAN_OPTIONS="print_stacktrace=0")
 HARNESS_SRC = os.path.join(VERIF, "harness/C14/arith.c")
 NJOBS = 12
@@ -110,14 +113,13 @@ def witness_lines(flags):
     """witness synthesiser: Gen flag that makes an obligation fail -> protocol lines that exercise exactly that case"""
     mn = "s:-9223372036854775808"
     w = []
-    if not flags.get("guardDivf", True):
+    if not flags.get("divfGuard", True):
         w += ["div %s s:-1" % mn, "div %s n:bff0000000000000" % mn, "div %s t:-1" % mn]
-    if not flags.get("guardDivfi", True):
-        w += ["div n:bff0000000000000 %s" % mn] if False else []
+    if not flags.get("divfiGuard", True):
         w += ["div t:-9223372036854775808 s:-1"]
-    if not flags.get("guardMod", True):
+    if not flags.get("modGuard", True):
         w += ["mod %s s:-1" % mn, "mod %s n:bff0000000000000" % mn]
-    if not flags.get("guardModi", True):
+    if not flags.get("modiGuard", True):
         w += ["mod t:-9223372036854775808 s:-1"]
     if not flags.get("guard_DIVMETHOD_SIGNED", True):
         w += ["/ %s s:-1" % mn, "%% %s s:-1" % mn]
@@ -151,9 +153,9 @@ def run(ctx):
     if pb:
         # which obligation over Gen is it?  (read off the regenerated flags; the kernel's verdict is the build failure itself)
         named = []
-        if flags and not all(flags.get(k) for k in ("guardDivf", "guardDivfi", "guardMod", "guardModi", "guard_DIVMETHOD_SIGNED", "guard_DIVMETHODINVERT_SIGNED")):
+        if flags and not all(flags.get(k) for k in ("divfGuard", "divfiGuard", "modGuard", "modiGuard", "guard_DIVMETHOD_SIGNED", "guard_DIVMETHODINVERT_SIGNED")):
             named.append("JanetModel.Props.C14.no_ub (a signed division or remainder without the INT64_MIN / -1 test: %s)" %
-                         ", ".join(k for k in ("guardDivf", "guardDivfi", "guardMod", "guardModi", "guard_DIVMETHOD_SIGNED", "guard_DIVMETHODINVERT_SIGNED") if not flags.get(k)))
+                         ", ".join(k for k in ("divfGuard", "divfiGuard", "modGuard", "modiGuard", "guard_DIVMETHOD_SIGNED", "guard_DIVMETHODINVERT_SIGNED") if not flags.get(k)))
         if flags and (flags.get("cmpS64Upper") != ">=" or flags.get("cmpU64Upper") != ">="):
             named.append("JanetModel.Props.C14.compare_mixed_correct (edge comparison of compare_int64_double / compare_uint64_double is exclusive: 2^63 resp. 2^64 reach the cast)")
         broken += named + pb
@@ -224,7 +226,7 @@ def run(ctx):
             diffs.append(i)
     # (E) report: property failures on the implementation first
     reported = set()
-    for i in sorted(direct, key=lambda i: (len(lines[i]), lines[i])):
+    for i in sorted(direct, key=lambda i: (lines[i].count("t:"), len(lines[i]), lines[i])):
         l = lines[i]
         t = l.split()
         cls = "crash" if impl[i] in ("CRASH", "TIMEOUT") else "wrong-result"
@@ -269,7 +271,7 @@ def run(ctx):
         "correspondence_lines": len(lines), "correspondence_diffs": len(diffs),
         "oracle_claims": n_claim, "oracle_failures": len(direct), "model_ub_lines": len(ub_lines), "crashes": len(crashes),
         "result_kinds_hit": dict(sorted(kinds.items())), "operator_mix": dict(sorted(ops.items())), "type_mix": dict(sorted(mixes.items())),
-        "gen_flags": {k: flags.get(k) for k in ("guardDivf", "guardDivfi", "guardMod", "guardModi", "guard_DIVMETHOD_SIGNED", "guard_DIVMETHODINVERT_SIGNED",
+        "gen_flags": {k: flags.get(k) for k in ("divfGuard", "divfiGuard", "modGuard", "modiGuard", "guard_DIVMETHOD_SIGNED", "guard_DIVMETHODINVERT_SIGNED",
                                                 "cmpS64Upper", "cmpS64Lower", "cmpU64Upper")},
     }
     return ctx.finish("proof", cov, assumptions=[
